@@ -165,6 +165,7 @@ type cluster struct {
 	blocked map[[2]int]bool // directed pairs that drop everything
 	holdMs  map[[2]int]int  // responses on this directed pair (responder, requester) are held this long
 	litmus  bool
+	hbLong  bool
 	delayMs int
 	dropPct int
 	dupPct  int
@@ -211,6 +212,11 @@ func (c *cluster) conf(i int, n *cnode) *raft.Config {
 		conf.HeartbeatTimeout = 100 * time.Millisecond
 		conf.ElectionTimeout = 100 * time.Millisecond
 		conf.LeaderLeaseTimeout = 100 * time.Millisecond
+	}
+	if c.hbLong { // heartbeat / election timeouts four times the lease
+		conf.HeartbeatTimeout = 200 * time.Millisecond
+		conf.ElectionTimeout = 200 * time.Millisecond
+		conf.LeaderLeaseTimeout = 50 * time.Millisecond
 	}
 	if n.slowClock {
 		conf.HeartbeatTimeout = 300 * time.Millisecond
@@ -926,7 +932,8 @@ func runVerifyLitmus(rng *rand.Rand, out *bufio.Writer, st *stats, caseNo int) {
 func runLeaseCase(rng *rand.Rand, out *bufio.Writer, st *stats, caseNo int) {
 	h := &hist{t0: time.Now(), seenS: map[string]bool{}}
 	nsrv := 3 + 2*rng.Intn(2)
-	c := &cluster{rng: rng, h: h, blocked: map[[2]int]bool{}, holdMs: map[[2]int]int{}, delayMs: 1 + rng.Intn(4)}
+	c := &cluster{rng: rng, h: h, blocked: map[[2]int]bool{}, holdMs: map[[2]int]int{}, delayMs: 1 + rng.Intn(4), hbLong: rng.Intn(3) == 0}
+	selfDemote := nsrv == 3 && rng.Intn(3) == 0
 	_, c.inj = raft.NewInmemTransportWithTimeout("inj", 80*time.Millisecond)
 	c.nodes = []*cnode{nil}
 	var cfg raft.Configuration
@@ -955,8 +962,24 @@ func runLeaseCase(rng *rand.Rand, out *bufio.Writer, st *stats, caseNo int) {
 		time.Sleep(100 * time.Millisecond)
 	}
 	h.rec("CALMEND %d", h.now())
+	if l := c.leader(); l != nil && selfDemote {
+		// (a') the leader loses its majority through its own (uncommitted) demotion: one follower is
+		// unreachable and the leader stops being a voter, so the one follower it still reaches is
+		// not a majority of the remaining voters
+		other := 1 + l.id%nsrv
+		c.isolate(other, true)
+		time.Sleep(30 * time.Millisecond)
+		self := sidOf(l.id)
+		c.callWith(l, "m", func(r *raft.Raft) error { return r.DemoteVoter(self, 0, 20*time.Millisecond).Error() })
+		time.Sleep(10 * time.Millisecond)
+		h.rec("ISO %d %d %d 50", l.id, l.life, h.now())
+		time.Sleep(500 * time.Millisecond)
+		c.isolate(other, false)
+	} else if l != nil {
+		_ = l
+	}
 	// (a) isolate the leader; a non-voter (if any) stays connected to it
-	if l := c.leader(); l != nil {
+	if l := c.leader(); l != nil && !selfDemote {
 		c.mu.Lock()
 		for o := 1; o <= nsrv; o++ {
 			if o == l.id {
